@@ -2,11 +2,14 @@
    Statements only; proofs are `exact <lemma>` of Proofs/Rewire*.v.
    Model: Model/Rewire.v (one engine for randmio_dir/_dir_connected/_und/_und_connected, latmio_dir/
    _dir_connected/_und/_und_connected, randomize_graph_partial_und; the swap of randomizer_bin_und).
-   "Every seed" = every stream of draws [s0]; a run that exhausts the stream returns None, and the
-   invariant is stated for EVERY recorded intermediate state, so a run cut anywhere satisfies it. *)
+   "Every seed" = every stream of draws [s0].  A call ends in one of four distinguishable ways (Model/Rewire.v: outcome):
+   Rejected (BCTParamError of the input checks), Raises (ZeroDivisionError for n < 2, ValueError of randint(0)),
+   StreamEnd (the stream does not fit / is used up — also how the model follows a loop of the code that never ends) or
+   Done res (the call returns).  The theorems speak about Done; the invariant is stated for EVERY recorded intermediate
+   state, so a run cut anywhere satisfies it; C01_nothing_to_do* say when Done is certain from the input alone. *)
 From Coq Require Import ZArith List Arith Permutation QArith.
 From BCT Require Import Base.Mat Base.ListX Model.Rewire Model.RewireSpec Proofs.RewireSwap Proofs.RewireInv Proofs.RewireRun Proofs.RewireBin Proofs.RewireSpec Gen.RewireTable.
-From BCT Require Import Model.Components Model.RewireBin Proofs.RewireBinFull.
+From BCT Require Import Model.Components Model.RewireBin Proofs.RewireBinFull Proofs.RewireBinZero Proofs.RewireOutcome Proofs.RewireRefuted Proofs.RewireExamples.
 Import ListNotations.
 Open Scope Z_scope.
 
@@ -16,7 +19,7 @@ Open Scope Z_scope.
 
 (* every reachable state of every run of the eight engine routines: final state and each accepted swap *)
 Theorem C01_run_invariant : forall r n R0 itr D s0 res,
-  run_routine r n R0 itr D s0 = Some res ->
+  run_routine r n R0 itr D s0 = Done res ->
   (is_und r = true -> (forall x y, R0 x y = R0 y x) /\ (forall x, R0 x x = 0)) ->
   let R1 := pre_matrix r n R0 (r_perm res) in
   exists k st,
@@ -32,7 +35,7 @@ Proof. exact run_routine_good. Qed.
    out-degree, in-degree, weight multiset, no new self-connection, symmetry (undirected), out-strength (directed),
    identity when zero rewirings are requested or reported, Rlatt[ix_(ind_rp,ind_rp)] = Rrp *)
 Theorem C01_run_caller : forall r n R0 itr D s0 res,
-  run_routine r n R0 itr D s0 = Some res ->
+  run_routine r n R0 itr D s0 = Done res ->
   (is_und r = true -> (forall x y, R0 x y = R0 y x) /\ (forall x, R0 x x = 0)) ->
   (is_latt r = true -> Permutation (r_perm res) (seq 0 n)) ->
   (forall x, (x < n)%nat -> outdeg n (r_out res) x = outdeg n R0 x) /\
@@ -46,14 +49,49 @@ Theorem C01_run_caller : forall r n R0 itr D s0 res,
       r_out res (nth x (r_perm res) O) (nth y (r_perm res) O) = r_rp res x y).
 Proof. exact run_routine_caller. Qed.
 
-(* randomize_graph_partial_und *)
-Theorem C01_partial_und : forall n A B maxswap s0 res,
-  run_partial_und n A B maxswap s0 = Some res ->
+(* randomize_graph_partial_und (a FULL statement about every run of that routine; the name is the routine's initials) *)
+Theorem C01_rgpu_run : forall n A B maxswap s0 res,
+  run_partial_und n A B maxswap s0 = Done res ->
   (forall x y, A x y = A y x) -> (forall x, A x x = 0) ->
   exists k st,
     r_out res = sR st /\ Good true n k A st /\ GoodTrace true n k A (r_trace res) /\
     (maxswap = O -> r_out res = A).
 Proof. exact run_partial_good. Qed.
+
+(* the same in the caller's vocabulary: degrees, weight multiset, empty diagonal, symmetry, identity for maxswap = 0 *)
+Theorem C01_rgpu_caller : forall n A B maxswap s0 res,
+  run_partial_und n A B maxswap s0 = Done res ->
+  (forall x y, A x y = A y x) -> (forall x, A x x = 0) ->
+  (forall x, outdeg n (r_out res) x = outdeg n A x) /\
+  (forall y, indeg n (r_out res) y = indeg n A y) /\
+  (forall w, wcount n (r_out res) w = wcount n A w) /\
+  (forall x, r_out res x x = 0) /\
+  (forall x y, r_out res x y = r_out res y x) /\
+  (maxswap = O -> r_out res = A).
+Proof. exact run_partial_caller. Qed.
+
+(* zero rewirings requested, or no connection at all: the call RETURNS (n >= 2, checks passed) and returns the input.
+   The code's `itr *= k; for it in range(itr)` has nothing to do; also for fewer than two edges, where the loops of the
+   code could otherwise not terminate. *)
+Theorem C01_nothing_to_do : forall r n R0 itr D s0,
+  is_latt r = false -> precheck r n R0 = true -> (2 <= n)%nat ->
+  (itr = O \/ count_edges (if is_und r then ELtril else ELall) n R0 = O) ->
+  exists res, run_routine r n R0 itr D s0 = Done res /\
+    r_out res = R0 /\ r_rp res = R0 /\ r_eff res = O /\ r_trace res = [] /\ r_left res = length s0.
+Proof. exact run_nothing_to_do. Qed.
+
+Theorem C01_nothing_to_do_latt : forall r n R0 itr D p s1,
+  is_latt r = true -> precheck r n R0 = true -> (2 <= n)%nat ->
+  let R1 := tab 0 n n (conj_perm (of_list O p) R0) in
+  (itr = O \/ count_edges (if is_und r then ELtril else ELall) n R1 = O) ->
+  exists res, run_routine r n R0 itr D (DPerm p :: s1) = Done res /\
+    r_rp res = R1 /\ r_perm res = p /\ r_eff res = O /\ r_trace res = [] /\ r_left res = length s1 /\
+    r_out res = (fun x y => R1 (index_of x p) (index_of y p)).
+Proof. exact run_nothing_to_do_latt. Qed.
+
+Theorem C01_rgpu_nothing_to_do : forall n A B s0,
+  exists res, run_partial_und n A B 0 s0 = Done res /\ r_out res = A /\ r_trace res = [] /\ r_left res = length s0.
+Proof. exact run_partial_nothing_to_do. Qed.
 
 (* one attempt of the engine, accepted or not, for every draw and EVERY guard (lattice, connectivity, mask, or
    anything else): the invariant and the preserved quantities do not depend on the guard *)
@@ -63,8 +101,8 @@ Theorem C01_attempt : forall v n k st s st' s' o, (0 < k)%nat ->
 Proof. exact attempt_spec. Qed.
 
 (* randomizer_bin_und: its swap a-b, c-d -> a-c, b-d keeps every degree, the entry counts, symmetry and the
-   diagonal of the working matrix.  (This is the step lemma; the whole routine is C01_rbu_full below.) *)
-Theorem C01_rbu_step_partial : forall R a b c d,
+   diagonal of the working matrix.  (A full statement about one step; the whole routine is C01_rbu_full below.) *)
+Theorem C01_rbu_step : forall R a b c d,
   a <> b -> a <> c -> a <> d -> b <> c -> b <> d -> c <> d ->
   (forall x y, R x y = R y x) -> rbu_admissible R a b c d = true ->
   forall n, (a < n)%nat -> (b < n)%nat -> (c < n)%nat -> (d < n)%nat ->
@@ -92,27 +130,50 @@ Theorem C01_rbu_full : forall n R0 alpha s out tr lft,
   Forall (EvI n (rbu_k n R0) (rbu_R3 n R0)) tr.
 Proof. exact rbu_full. Qed.
 
+(* "equals the input when nothing is rewired": a run of the whole routine that records no swap returns the binarised
+   input cell by cell (complement and back, masking full nodes and back, diagonal saved and restored) *)
+Theorem C01_rbu_zero_identity : forall n R0 alpha s out lft,
+  randomizer_bin_und n R0 alpha s = RbuOk out [] lft ->
+  forall x y, (x < n)%nat -> (y < n)%nat -> out x y = bin01 R0 x y.
+Proof. exact rbu_zero_identity. Qed.
+
 Theorem C01_rbu_start_degrees : forall n R0 x, symmetricb n (bin01 R0) = true -> (x < n)%nat ->
   offdeg n (rbu_R2 n R0) x = (if rbu_swapped n R0 then Z.of_nat n - 1 - offdeg n (bin01 R0) x else offdeg n (bin01 R0) x) /\
   offdeg n (rbu_R3 n R0) x = (if nmem x (rbu_fl n R0) then 0 else offdeg n (rbu_R2 n R0) x - nfull n (rbu_R2 n R0)).
 Proof. exact rbu_start_degrees. Qed.
 
-(* the tie by translation: Gen/RewireTable.v is regenerated from the AST of bct/algorithms/reference.py on every
-   run (harness/translate_rewire.py); the swap table read off the source (edge-list source, four-distinct test,
-   flip block, rewiring condition, ordered cell writes, index patches, presence of the lattice / connectivity / mask
-   conditions, permutation before and inverse permutation after) equals the table the engine implements ... *)
+(* REFUTED outside the documented domain: the undirected engine routines on a symmetric input with a NON-EMPTY DIAGONAL.
+   The hypothesis `forall x, R0 x x = 0` of C01_run_caller cannot be dropped: randmio_und(6-ring + self-connections at
+   nodes 0 and 3, itr=1, seed=317) of the implementation, replayed by the model, returns an asymmetric matrix in which
+   node 3 has lost a connection (np.where(np.tril(R)) lists (a,a) as an edge, the four-distinct test does not compare
+   a with b, and R[d,a] = R[b,a] then reads the cell just cleared).  known_findings.d/C01.json, proposed_fixes/. *)
+Theorem C01_und_selfloop_refuted :
+  exists (R0 : mat Z) (s0 : stream) (res : result),
+    (forall x y, R0 x y = R0 y x) /\
+    run_routine Randmio_und 6 R0 1 None s0 = Done res /\ r_left res = O /\
+    r_out res 4%nat 3%nat <> r_out res 3%nat 4%nat /\
+    outdeg 6 (r_out res) 3 <> outdeg 6 R0 3.
+Proof. exact und_selfloop_refuted. Qed.
+
+(* the tie by translation: Gen/RewireTable.v is regenerated from the AST of bct/algorithms/reference.py on every run
+   (harness/translate_rewire.py, fail-closed); per routine it holds the edge-list source, the selection loop (two draws
+   bounded by the edge count, the `while e1 == e2` redraw, the endpoint reads a = i[e1] ..., the four-distinct test and
+   nothing else), the flip block, the rewiring condition, the mask cells, the ordered cell writes (and no other write to the
+   matrix anywhere in the function), the index patches, presence of the lattice / connectivity conditions, the max_attempts
+   formula, the loop skeleton, permutation before and inverse permutation after.  It equals the table the model stands for ... *)
 Theorem C01_source_table : list_eqb spec_eqb source_table expected_table = true.
 Proof. exact src_table_ok. Qed.
 
-(* ... and the engine's accepted branch IS the execution of that table: cell writes in source order, index patches,
-   four-distinct test, rewiring condition *)
-Theorem C01_engine_is_table : forall (und : bool) R a b c d e1 e2 i j,
-  let r := mkenv a b c d in
-  (if und then swap_und R a b c d else swap_dir R a b c d) = exec_writes r (if und then writes_und else writes_dir) R /\
-  (i, vupd (vupd j e1 d) e2 b) = exec_patches r e1 e2 patches_std (i, j) /\
-  four_ok a b c d = eval_four r four_std /\
-  (Z.eqb (R a d) 0 && Z.eqb (R c b) 0)%bool = eval_cond r R cond_std.
-Proof. exact attempt_is_table. Qed.
+(* ... and the engine's attempt IS the interpretation of that table (Model/RewireSpec.v: attempt_tab reads the table's
+   columns: selection loop, reads, flip patches + re-read, conditions on R and on the mask, writes, patches), for every
+   routine, every guard, every state and every stream; so is the attempt of randomize_graph_partial_und with its mask *)
+Theorem C01_engine_is_table : forall (rt : routine) (B : mat Z) g k st s,
+  attempt_tab (spec_of rt) B g k st s = attempt (mkvar (is_und rt) g) k st s.
+Proof. exact attempt_tab_engine. Qed.
+
+Theorem C01_rgpu_is_table : forall (B : mat Z) k st s,
+  attempt_tab spec_partial_und B no_guard k st s = attempt (mkvar true (mask_guard B)) k st s.
+Proof. exact attempt_tab_partial. Qed.
 
 (* non-vacuity: a recorded run of the implementation (randmio_und, 5-node ring, itr=1, seed 7) replayed by the model:
    four accepted swaps, all draws consumed *)
@@ -124,15 +185,29 @@ Example C01_nonvacuous :
       DInt 4; DInt 0; DFlt (148475453677803#2251799813685248)%Q; DInt 2; DInt 3; DFlt (390705043056667#562949953421312)%Q;
       DInt 0; DInt 0; DInt 0; DInt 3; DInt 0; DInt 2; DFlt (2074383920282339#9007199254740992)%Q; DInt 4; DInt 1;
       DFlt (4042663369636215#9007199254740992)%Q]
-     = Some res /\ r_eff res = 4%nat /\ r_left res = 0%nat.
+     = Done res /\ r_eff res = 4%nat /\ r_left res = 0%nat.
 Proof. vm_compute. eexists. split; [reflexivity|split; reflexivity]. Qed.
+
+(* further non-vacuity Examples, one recorded run of the implementation per routine family (Proofs/RewireExamples.v):
+   ex_randmio_dir, ex_randmio_dir_connected, ex_randmio_und_connected, ex_latmio_dir (caller-supplied asymmetric D),
+   ex_latmio_dir_connected, ex_latmio_und, ex_latmio_und_connected (caller-supplied symmetric D), ex_partial_und (mask);
+   randomizer_bin_und: rbu_full_nonvacuous_sparse / _dense (Proofs/RewireBinFull.v), rbu_zero_identity_nonvacuous. *)
+Definition C01_more_nonvacuous := (ex_randmio_dir, ex_randmio_dir_connected, ex_randmio_und_connected, ex_latmio_dir, ex_latmio_dir_connected,
+       ex_latmio_und, ex_latmio_und_connected, ex_partial_und, rbu_zero_identity_nonvacuous).
 
 Print Assumptions C01_run_invariant.
 Print Assumptions C01_run_caller.
-Print Assumptions C01_partial_und.
+Print Assumptions C01_rgpu_run.
+Print Assumptions C01_rgpu_caller.
+Print Assumptions C01_nothing_to_do.
+Print Assumptions C01_nothing_to_do_latt.
+Print Assumptions C01_rgpu_nothing_to_do.
 Print Assumptions C01_attempt.
-Print Assumptions C01_rbu_step_partial.
+Print Assumptions C01_rbu_step.
 Print Assumptions C01_rbu_full.
 Print Assumptions C01_rbu_start_degrees.
+Print Assumptions C01_rbu_zero_identity.
+Print Assumptions C01_und_selfloop_refuted.
 Print Assumptions C01_source_table.
 Print Assumptions C01_engine_is_table.
+Print Assumptions C01_rgpu_is_table.
